@@ -286,9 +286,9 @@ let bad_b k s =
 (** val locked : bool **)
 
 let locked =
-  true
+  false
 
 (** val discipline : nat **)
 
 let discipline =
-  S O
+  O
